@@ -7,6 +7,7 @@ CONSTANTS
   Runs = 1
   FirstVisitCounts = TRUE
   WaitForVisited = TRUE
+  RootsAreEntries = TRUE
   Loop = TRUE
 INVARIANTS SweepBound Consistent EdgesStopAtExits RoundsBound
 PROPERTY PTerminates
